@@ -4,7 +4,7 @@ Theorems are about `MxlVerif/Model/C16.lean` (linear mapper) and `MxlVerif/Model
 (isotopomer mapper), the `def`s the driver runs.  Only property theorems and non-vacuity
 examples live here.
 -/
-import MxlVerif.Lemmas.C16
+import MxlVerif.Lemmas.C16Model
 import MxlVerif.Generated.C16Facts
 namespace Mxl.C16
 open Mxl.C05
@@ -201,6 +201,108 @@ theorem C16_no_label_stays_none (lrs : List LinRxn) (v C : Name → Rat) (x : Sl
     rw [ih]
     simp only [LinRxn.rate]
     grind
+
+/-- **whole model**: the base model's reactions are a dict (names pairwise distinct), `label_maps`
+    is a dict, every base reaction has a map that is a permutation of its padded positions and a
+    mass-action rate law, both mappers built their model from the same label counts and maps (so
+    every compound carries labels — the linear mapper raises `KeyError` otherwise), pools non-zero.
+    With enrichments and pools taken from an isotopomer state `σ` and the fluxes those of the base
+    model at the totals (`fluxAtTotals`), the derivative `LinearLabelMapper.build_model`'s model
+    gives label position `(x, i)` equals the derivative `LabelMapper.build_model`'s model gives the
+    amount of `x` labelled at `i`, divided by the pool — for every state, every position, whatever
+    the order of `label_maps` (at a base steady state this is d/dt of the positional enrichment) -/
+theorem C16_model_marginal {b : Base} {lv : List (Name × Nat)} {maps : List (Name × List Nat)}
+    {il il' : List (Name × List Nat)} {m : LModel} {lmod : LinModel}
+    (hiso : buildModel b lv maps il = .ok m)
+    (hlin : linearBuild (b.rxns.map fun r => (r.name, r.stoich)) lv maps il' = .ok lmod)
+    (hnd : (b.rxns.map (·.name)).Nodup) (hkd : (maps.map (·.1)).Nodup)
+    (hall : ∀ r ∈ b.rxns, LinOk lv maps r)
+    (σ : LName → Rat) (hC : ∀ c, labelsOf lv c > 0 → totalOf σ c (labelsOf lv c) ≠ 0)
+    (C : Name → Rat) (x : Name) (i : Nat) :
+    linRhs lmod.rxns (enrichOf lv σ) (fluxAtTotals b lv σ) C (Slot.pos x i)
+      = (1 / C x) * ((labelledAt x (labelsOf lv x) i).map (rhsOf m.rxns σ)).sum :=
+  model_marginal hiso hlin hnd hkd hall σ hC C x i
+
+/-- non-vacuity of `C16_model_marginal`: a two-reaction chain with the non-involutive 3-cycle, both
+    mappers build, every base reaction satisfies `LinOk` -/
+example :
+    ∃ (b : Base) (lv : List (Name × Nat)) (maps : List (Name × List Nat)) (m : LModel) (lmod : LinModel),
+      buildModel b lv maps [] = .ok m ∧
+      linearBuild (b.rxns.map fun r => (r.name, r.stoich)) lv maps [] = .ok lmod ∧
+      lmod.rxns.length = 6 ∧ m.rxns.length = 9 ∧
+      (maps.map (·.1)).Nodup ∧ (b.rxns.map (·.name)).Nodup ∧
+      ∀ r ∈ b.rxns, ∃ l, maps.lookup r.name = some l ∧ PermMap (max (nSub lv r) (nProd lv r)) l := by
+  refine ⟨{ pars := [("k", 1)], vars := [("A", 1), ("B", 1)], derived := [],
+            rxns := [{ name := "v1", fn := listProd, args := ["k", "A"], stoich := [("A", -1), ("B", 1)] },
+                     { name := "v0", fn := listProd, args := ["k"], stoich := [("A", 1)] }] },
+    [("A", 3), ("B", 3)], [("v0", [0, 1, 2]), ("v1", [2, 0, 1])], _, _, rfl, rfl,
+    by decide, by decide, by decide, by decide, ?_⟩
+  intro r hr
+  simp only [List.mem_cons, List.not_mem_nil, or_false] at hr
+  rcases hr with rfl | rfl
+  · exact ⟨[2, 0, 1], rfl, by decide⟩
+  · exact ⟨[0, 1, 2], rfl, by decide⟩
+
+/-- **uniform enrichment is stationary, whole model**: for the model `build_model` returns (base
+    reactions a dict, every `label_maps` entry a permutation of its reaction's padded positions), if
+    every position and the external pool have enrichment `e` — any `e`, i.e. any `external_label` —
+    and the fluxes balance every compound over the mapped reactions (a steady state of the base
+    model), every derivative of the linear model is zero -/
+theorem C16_model_uniform_stationary {b : Base} {lv : List (Name × Nat)}
+    {maps : List (Name × List Nat)} {il : List (Name × List Nat)} {lmod : LinModel}
+    (hlin : linearBuild (b.rxns.map fun r => (r.name, r.stoich)) lv maps il = .ok lmod)
+    (hnd : (b.rxns.map (·.name)).Nodup)
+    (hperm : ∀ km ∈ maps, ∀ r ∈ b.rxns, r.name = km.1 → PermMap (max (nSub lv r) (nProd lv r)) km.2)
+    (e : Rat) (v C : Name → Rat) (x : Name) (i : Nat) (hi : i < labelsOf lv x)
+    (hsteady : (maps.map fun km => (netOf b km.1 x : Rat) * v km.1).sum = 0) :
+    linRhs lmod.rxns (fun _ => e) v C (Slot.pos x i) = 0 := by
+  obtain ⟨_, groups, hg, hr, _⟩ := linearBuild_ok hlin
+  have hfa := mapM_ok_forall₂ _ _ _ hg
+  rw [hr, linRhs_flatten]
+  have : (groups.map fun g => linRhs g (fun _ => e) v C (Slot.pos x i)).sum
+      = (maps.map fun km => ((netOf b km.1 x : Rat) * v km.1) * ((1 / C x) * e)).sum := by
+    refine forall₂_map_sum _ _ hfa ?_
+    intro km lrs hkm hlrs
+    obtain ⟨st, hst⟩ := linRxnsOf_known hlrs
+    obtain ⟨r, hrm, hrn⟩ := lookup_baseRxns_some hst
+    have hpm := hperm km hkm r hrm hrn
+    rw [← hrn] at hlrs ⊢
+    have hlk := lookup_baseRxns hnd hrm
+    rw [C16_uniform_contribution lv r km.2 _ lrs hlk (linRxnsOf_labelled hlk hlrs) hpm hlrs e v C x i hi]
+    simp only [netOf, find_of_mem_nodup hnd hrm]
+    grind
+  rw [this, sum_map_mul_right, hsteady]
+  grind
+
+/-- **no external and no initial label ⇒ none appears, whole model**: built without
+    `initial_labels`, every label position starts at enrichment 0 (and the variables are exactly the
+    positions of the listed compounds); with `external_label = 0` every derivative at an all-zero
+    state is zero, whatever the fluxes and pools — so the all-zero state is kept -/
+theorem C16_model_no_label {baseRxns : List (Name × List (Name × Int))} {lv : List (Name × Nat)}
+    {maps : List (Name × List Nat)} {lmod : LinModel}
+    (hlin : linearBuild baseRxns lv maps [] = .ok lmod) :
+    lmod.vars.map (·.1) = lv.flatMap (fun kn => (List.range kn.2).map (Slot.pos kn.1)) ∧
+    (∀ kv ∈ lmod.vars, kv.2 = 0) ∧
+    ∀ (v C : Name → Rat) (x : Slot), linRhs lmod.rxns (fun _ => 0) v C x = 0 := by
+  obtain ⟨_, _, _, _, hv⟩ := linearBuild_ok hlin
+  refine ⟨?_, ?_, fun v C x => C16_no_label_stays_none _ v C x⟩
+  · rw [hv]
+    simp [linInitVars, isosOf, List.map_map, Function.comp_def, List.flatMap_map]
+  · rw [hv]
+    intro kv hkv
+    simp only [linInitVars, List.foldl_nil, List.mem_map] at hkv
+    obtain ⟨_, _, rfl⟩ := hkv
+    rfl
+
+/-- the error classes of the linear mapper's `build_model`, stage by stage: a listed compound with 0
+    positions is a `ValueError` (before anything else); a `label_maps` key that is no reaction of
+    the base model is a `KeyError` -/
+theorem C16_build_errors (baseRxns : List (Name × List (Name × Int))) (lv : List (Name × Nat))
+    (maps : List (Name × List Nat)) (il : List (Name × List Nat)) :
+    ((∃ kn ∈ lv, kn.2 = 0) → linearBuild baseRxns lv maps il = .error .valueError) ∧
+    (∀ isos rxn lm, baseRxns.lookup rxn = none →
+      linRxnsOf isos baseRxns rxn lm = .error (.keyError rxn)) :=
+  ⟨linearBuild_zero_labels, fun isos rxn lm h => linRxnsOf_unknown isos baseRxns rxn lm h⟩
 
 /-- the facts regenerated from the current `linear_label_map.py` by `translate/c16.py` are the ones
     the model is written for: every mirrored function has its modelled statement shape (no decorator,
